@@ -770,6 +770,9 @@ def _distributed(c, plan, rng, scratch):
     with_empty = rng.random() < 0.4
     nested = not with_empty and rng.random() < 0.5
     plan = G.inject_empty_set(rng, plan) if with_empty else G.delta_sets(plan)
+    if not with_empty and rng.random() < 0.6:
+        plan = G.inject_model_twins(rng, plan)
+        c.hit("exec_distributed_model_twins")
     seed = rng.random()
     out = _distributed_once(c, plan, seed, scratch / "dist", "nested" if nested else "ctx")
     if out == "env":
